@@ -10,7 +10,8 @@ RoutePaths == { <<"/", "x">>, <<"y", "/">>, <<>> }
 
 Init == RegInit
 Next == /\ Len(prog) < MaxActs
-        /\ \/ \E p \in GroupPrefixes, n \in 0..1 : Depth < MaxDepth /\ Enter(p, n)
+        /\ \/ \E p \in GroupPrefixes, n \in 0..1 : Depth < MaxDepth /\ Enter(p, n, FALSE)
+           \/ \E n \in 2..3 : Depth < MaxDepth /\ Enter(<<"/", "a">>, n, TRUE)      \* Group("/a", fn, common[:n]...)
            \/ Exit
            \/ \E n \in 1..2 : Use(n)
            \/ \E p \in RoutePaths, n \in 0..1 : Len(routes) < MaxRoutes /\ Add(p, n)
